@@ -130,7 +130,7 @@ def billing_case(spec, rng, keys):
     b = ns(didx)
     dst = bool(len(set(didx.hour)) > 1 or len(set(np.diff(b))) > 1)
     n = 0
-    for i in range(nper - 1):                                   # final period excluded
+    for i in range(nper):                                       # every billed period, the final one included
         a0, a1 = b[starts[i]], b[starts[i + 1]]
         sel = (t >= a0) & (t < a1)
         L = int(steps[i])
